@@ -17,6 +17,9 @@ import z3
 CVC5 = shutil.which('cvc5') or '/usr/bin/cvc5'
 Z3_MS = int(os.environ.get('VERIF_Z3_MS', '6000'))
 CVC5_S = int(os.environ.get('VERIF_CVC5_S', '10'))
+# the nonlinear-real stage needs up to ~5 s on an idle machine for the Line balance obligations; the wall-clock budget is sized so
+# that the verdict does not flip when all cores are busy
+NLSAT_MS = int(os.environ.get('VERIF_NLSAT_MS', '40000'))
 
 
 class Result:
@@ -107,7 +110,7 @@ def prove(name, hyps, goal, meta=None, timeout_ms=None, keep_smt2=False, want_mo
     if r == z3.sat:
         return done('refuted', 'z3', s)
     try:
-        s2 = mk(z3.Then('simplify', 'solve-eqs', 'purify-arith', 'qfnra-nlsat').solver(), timeout_ms)
+        s2 = mk(z3.Then('simplify', 'solve-eqs', 'purify-arith', 'qfnra-nlsat').solver(), max(timeout_ms, NLSAT_MS))
         r2 = s2.check()
         if r2 == z3.unsat:
             return done('proved', 'z3-nlsat')
